@@ -106,7 +106,7 @@ func c12CodecSets() []c12CodecSet {
 		cs := c12CodecSet{name: label, names: []string{"proto", "json"}}
 		for _, n := range extra {
 			cs.hopts = append(cs.hopts, connect.WithCodec(namedCodec{n}))
-			if n != "proto" && n != "json" {
+			if n != "proto" && n != "json" && n != "" { // (a nameless codec is documented as ignored)
 				cs.names = append(cs.names, n)
 				cs.custom = append(cs.custom, n)
 			}
@@ -119,6 +119,7 @@ func c12CodecSets() []c12CodecSet {
 		mk("plus-mixed-case", "Custom", "x.y-z_1"),
 		mk("proto-overridden", "proto"),
 		mk("many", "a", "b", "thrift", "msgpack"),
+		mk("odd-names", "", "vnd.acme+bin", "v1+proto+x"),
 	}
 }
 
